@@ -28,7 +28,7 @@ FINISHING = {'C_Encrypt', 'C_EncryptFinal', 'C_Decrypt', 'C_DecryptFinal', 'C_Di
 
 
 def is_query(name):
-    return is_pure_name(name) or name.startswith('check') or name in ('recycleKey',)
+    return is_pure_name(name) or name.startswith('check') or name in ('recycleKey', 'retrieveHandles')      # FindOperation::retrieveHandles only reads the result set (C19.R5)
 
 
 def session_var(f):
